@@ -336,6 +336,22 @@ def fam_wiring(sess):
             sess.discharged('%s: max(%s) records the argument value under the key the aggregate reads' % (fam, label), family=fam)
 
 
+def fam_e2e(sess):
+    """aggregate queries end to end (real lexer, parser, walker, check_file, aggregation, output) over the abstract file system"""
+    from drivers import e2e
+    S, N = e2e.SIZES, e2e.NAMES
+    queries = [
+        ('count(*) from R0', lambda v, k: [[str(len(v))]], True),
+        ('count(*), sum(size) from R0', lambda v, k: [[str(len(v)), str(sum(S[i] for i in v))]], True),
+        ('min(size), max(size), count(name) from R0', lambda v, k: [[str(min(S[i] for i in v)), str(max(S[i] for i in v)), str(len(v))]], True),
+        ('count(*) from R0 where size > 6', lambda v, k: [[str(len([i for i in v if S[i] > 6]))]], True),
+        ('max(length(name)), count(*) from R0 where is_dir = false', lambda v, k: [[str(max([len(N[i]) for i in v if not k[i]] or [0])), str(len([i for i in v if not k[i]]))]], True),
+    ]
+    if sess.tier == 'quick':
+        queries = queries[:1] + queries[3:]
+    e2e.family(sess, 'e2e', queries)
+
+
 def main(sess):
     sess.engines = ['mirsym (MIR symbolic execution) + z3 %s' % z3.get_version_string()]
     sess.assumptions += [
@@ -345,6 +361,6 @@ def main(sess):
         'that the rows are exactly the entries matching WHERE is the walker/evaluator (C01, C02); GROUP BY is C08',
     ]
     only = getattr(sess, 'only', None)
-    for name, f in (('exact', fam_exact), ('float', fam_float), ('wiring', fam_wiring)):
+    for name, f in (('exact', fam_exact), ('float', fam_float), ('wiring', fam_wiring), ('e2e', fam_e2e)):
         if not only or name in only:
             f(sess)
